@@ -23,16 +23,16 @@ Inductive expr :=
   | EBin (o : aop) (l r : expr).
 
 (* a function: whether it prints (an event), the writes it performs, the variable whose final value
-   it adds to its result, its base result.  A write is [direct] when it is an assignment to a
-   static-storage *variable* - the only kind of write the analyzer looks at (analyzer.lua
-   visitors.Assign: `if symbol.staticstorage then mark_funcscope_sideeffect`); writes through a record
-   field, an array element, a pointer or self have no symbol and leave the function unmarked.
+   it adds to its result, its base result.  [w_direct] tells whether a write is an assignment to a
+   static-storage *variable* or goes through a record field, an array element, a pointer or self.  Since
+   /repo 9e49985 the analyzer marks the enclosing function for both kinds (analyzer.lua visitors.Assign:
+   `if symbol.staticstorage then mark ... else mark`); before, only direct writes were seen.
    [w_inc] = the write is `x = x + v` rather than `x = v`. *)
 Record wspec := mk_w { w_direct : bool; w_var : nat; w_val : Z; w_inc : bool }.
 Record fdef := mk_fdef { f_event : bool; f_writes : list wspec; f_retvar : option nat; f_base : Z }.
 Definition fenv := nat -> fdef.
 (* the `sideeffect` attribute as the analyzer computes it *)
-Definition f_se (d : fdef) : bool := f_event d || existsb w_direct (f_writes d).
+Definition f_se (d : fdef) : bool := f_event d || negb (match f_writes d with [] => true | _ => false end).
 
 Definition store := list Z.
 Definition rd (s : store) (x : nat) : Z := nth x s 0.
